@@ -201,6 +201,10 @@ func (g *TreeGen) multi(d int, w Want) *Expr {
 		var keys []Key
 		var vals []*Expr
 		names := g.R.Perm(4)
+		if g.R.Chance(1, 5) {
+			// a repeated key is grammatical (the later member wins)
+			names[n-1] = names[0]
+		}
 		for i := 0; i < n; i++ {
 			k := []string{"n", "s", "x", "an"}[names[i]]
 			keys = append(keys, Key{Name: k, Quoted: g.R.Chance(1, 5)})
